@@ -349,4 +349,145 @@ theorem dhLoop_conforming (c : Conf P kB priv E Y pad T ss) (cs : List Bytes) :
 
 end parser
 
+/-! ## ticket store -/
+
+theorem map_filter_not_mem {α β : Type} (f : α → β) (p : α → Bool) :
+    ∀ (l : List α) (e : α), (l.map f).Nodup → e ∈ l → p e = false → f e ∉ (l.filter p).map f := by
+  intro l
+  induction l with
+  | nil => intro e _ he; simp at he
+  | cons x xs ih =>
+    intro e hn he hp
+    rw [List.map_cons, List.nodup_cons] at hn
+    obtain ⟨hx, hn'⟩ := hn
+    have hsub : ((xs.filter p).map f).Sublist (xs.map f) := (List.filter_sublist).map f
+    rcases List.mem_cons.mp he with rfl | he'
+    · rw [List.filter_cons_of_neg (by simp [hp])]
+      exact fun h => hx (hsub.subset h)
+    · have := ih e hn' he' hp
+      by_cases hpx : p x = true
+      · rw [List.filter_cons_of_pos hpx, List.map_cons, List.mem_cons]
+        rintro (h | h)
+        · exact hx (h ▸ List.mem_map_of_mem he')
+        · exact this h
+      · rw [List.filter_cons_of_neg hpx]; exact this
+
+/-- the issued blobs currently in the store -/
+def raws (s : Store) : List Bytes := s.map (fun e => e.2.raw)
+
+theorem raws_erase_sub (s : Store) (addr : String) : (raws (s.erase addr)).Sublist (raws s) :=
+  (List.filter_sublist).map _
+
+theorem raws_reload_sub (s : Store) (now : Int) : (raws (s.reload now)).Sublist (raws s) :=
+  (List.filter_sublist).map _
+
+theorem lookup_mem {s : Store} {addr : String} {t : Ticket} (h : s.lookup addr = some t) :
+    ∃ e ∈ s, e.1 = addr ∧ e.2 = t := by
+  unfold Store.lookup at h
+  cases hf : s.find? (·.1 == addr) with
+  | none => simp [hf] at h
+  | some e =>
+    simp only [hf, Option.map_some, Option.some.injEq] at h
+    exact ⟨e, List.mem_of_find?_eq_some hf, by simpa using List.find?_some hf, h⟩
+
+theorem raw_not_in_erase {s : Store} {addr : String} {t : Ticket} (hn : (raws s).Nodup)
+    (h : s.lookup addr = some t) : t.raw ∉ raws (s.erase addr) := by
+  obtain ⟨e, he, ha, ht⟩ := lookup_mem h
+  have := map_filter_not_mem (fun e : String × Ticket => e.2.raw) (fun e => e.1 != addr) s e hn he (by simp [ha])
+  rw [ht] at this
+  exact this
+
+theorem raw_mem_of_lookup {s : Store} {addr : String} {t : Ticket} (h : s.lookup addr = some t) :
+    t.raw ∈ raws s := by
+  obtain ⟨e, he, _, ht⟩ := lookup_mem h
+  exact ht ▸ List.mem_map_of_mem (f := fun e : String × Ticket => e.2.raw) he
+
+theorem connect_absent {s : Store} {addr : String} (now : Int) (h : s.lookup addr = none) :
+    s.connect addr now = (s, .uniformDH) := by
+  simp [Store.connect, Store.getTicket, h]
+
+theorem connect_valid {s : Store} {addr : String} {t : Ticket} (now : Int) (h : s.lookup addr = some t)
+    (hv : t.isValid now = true) : s.connect addr now = (s.erase addr, .ticket t) := by
+  simp [Store.connect, Store.getTicket, h, hv]
+
+theorem connect_expired {s : Store} {addr : String} {t : Ticket} (now : Int) (h : s.lookup addr = some t)
+    (hv : t.isValid now = false) : s.connect addr now = (s.erase addr, .uniformDH) := by
+  simp [Store.connect, Store.getTicket, h, hv]
+
+/-- invariant of a history: stored blobs distinct, presented blobs distinct, nothing presented
+    is still stored, and nothing stored or presented will be issued again -/
+structure HInv (s : Store) (pres future : List Bytes) : Prop where
+  nodupS : (raws s).Nodup
+  nodupP : pres.Nodup
+  disj : ∀ r ∈ pres, r ∉ raws s
+  freshS : ∀ r ∈ raws s, r ∉ future
+  freshP : ∀ r ∈ pres, r ∉ future
+
+theorem HInv.sub {s s' : Store} {pres future : List Bytes} (h : HInv s pres future)
+    (hs : (raws s').Sublist (raws s)) : HInv s' pres future :=
+  ⟨h.nodupS.sublist hs, h.nodupP, fun r hr hm => h.disj r hr (hs.subset hm),
+   fun r hr => h.freshS r (hs.subset hr), h.freshP⟩
+
+theorem runHist_nodup (ops : List HOp) : ∀ (s : Store) (pres : List Bytes),
+    HInv s pres (issuedRaws ops) → (issuedRaws ops).Nodup → (runHist s pres ops).2.Nodup := by
+  induction ops with
+  | nil => intro s pres h _; exact h.nodupP
+  | cons op r ih =>
+    intro s pres h hn
+    cases op with
+    | connect addr now =>
+      simp only [issuedRaws] at h hn
+      cases hl : s.lookup addr with
+      | none =>
+        simp only [runHist, connect_absent now hl]
+        exact ih s pres h hn
+      | some t =>
+        cases hv : t.isValid now with
+        | false =>
+          simp only [runHist, connect_expired now hl hv]
+          exact ih _ pres (h.sub (raws_erase_sub s addr)) hn
+        | true =>
+          simp only [runHist, connect_valid now hl hv]
+          have hmem := raw_mem_of_lookup hl
+          refine ih _ _ ⟨h.nodupS.sublist (raws_erase_sub s addr), ?_, ?_, ?_, ?_⟩ hn
+          · exact List.nodup_cons.mpr ⟨fun hp => h.disj _ hp hmem, h.nodupP⟩
+          · intro x hx
+            rcases List.mem_cons.mp hx with rfl | hx'
+            · exact raw_not_in_erase h.nodupS hl
+            · exact fun hm => h.disj x hx' ((raws_erase_sub s addr).subset hm)
+          · exact fun x hx => h.freshS x ((raws_erase_sub s addr).subset hx)
+          · intro x hx
+            rcases List.mem_cons.mp hx with rfl | hx'
+            · exact h.freshS _ hmem
+            · exact h.freshP x hx'
+    | issue addr raw now =>
+      simp only [issuedRaws, List.nodup_cons] at h hn
+      obtain ⟨hfresh, hn'⟩ := hn
+      simp only [runHist]
+      have hweak : HInv s pres (issuedRaws r) :=
+        ⟨h.nodupS, h.nodupP, h.disj, fun x hx hm => h.freshS x hx (List.mem_cons_of_mem _ hm),
+         fun x hx hm => h.freshP x hx (List.mem_cons_of_mem _ hm)⟩
+      unfold Store.storeTicket
+      split
+      · exact ih s pres hweak hn'
+      · have hraw : (⟨raw.take ticketKeyLength, raw.drop ticketKeyLength, now⟩ : Ticket).raw = raw := by
+          simp [Ticket.raw]
+        have hnot : raw ∉ raws s := fun hm => h.freshS raw hm List.mem_cons_self
+        have hsub := raws_erase_sub s addr
+        refine ih _ pres ⟨?_, h.nodupP, ?_, ?_, hweak.freshP⟩ hn'
+        · simp only [raws, List.map_cons, hraw]
+          exact List.nodup_cons.mpr ⟨fun hm => hnot (hsub.subset hm), h.nodupS.sublist hsub⟩
+        · intro x hx
+          simp only [raws, List.map_cons, hraw, List.mem_cons, not_or]
+          exact ⟨fun hxe => h.freshP x hx (hxe ▸ List.mem_cons_self), fun hm => h.disj x hx (hsub.subset hm)⟩
+        · intro x hx
+          simp only [raws, List.map_cons, hraw, List.mem_cons] at hx
+          rcases hx with rfl | hx
+          · exact hfresh
+          · exact hweak.freshS x (hsub.subset hx)
+    | restart now =>
+      simp only [issuedRaws] at h hn
+      simp only [runHist]
+      exact ih _ pres (h.sub (raws_reload_sub s now)) hn
+
 end O4.SS
